@@ -8,6 +8,7 @@ from typing import Any, Dict, List, Optional
 
 from .fakes import tcp_device as td
 from . import ops
+from .env import REAL_MONOTONIC, idle
 
 
 class OperationHung(Exception):
@@ -15,6 +16,8 @@ class OperationHung(Exception):
 
 
 _hangs_seen = 0
+_ops_run = 0
+_IDLE_RNG = __import__("random").Random(20260928)
 OP_TIMEOUT_S = 20.0   # real seconds: measured with time.monotonic below, immune to the virtual reply delays of C03   # generous: on loopback a reply is there in microseconds; only a client waiting for bytes nobody will send gets here
 
 
@@ -37,17 +40,31 @@ class Client:
 
     async def run(self, op: str, args: Dict[str, Any], remote=None) -> OpRecord:
         rec = OpRecord(op, args)
+        global _ops_run
+        _ops_run += 1
+        if _ops_run % 9 == 4:
+            # the application was idle for a while before this operation: seconds, minutes, hours of real (monotonic) time
+            idle(_IDLE_RNG.choice([1.5, 4, 11, 31, 61, 125, 305, 3700, 90000]))
+        if _ops_run % 13 == 6:
+            # the application changes the library's log level while objects are alive (a debug switch in its UI)
+            import logging
+
+            lg = logging.getLogger("aioswitcher")
+            lg.setLevel(logging.WARNING if lg.getEffectiveLevel() <= logging.DEBUG else logging.DEBUG)
+            if not lg.handlers:
+                lg.addHandler(logging.NullHandler())
+                lg.propagate = False
         mark = self.spy.mark()
         global _hangs_seen
         # the first two hangs of a worker get the full, generous wait; once they are on record the rest only need to be skipped quickly
         limit = OP_TIMEOUT_S if _hangs_seen < 2 else 1.0
         task = asyncio.ensure_future(ops.call(self.api, op, args, remote))
-        t0, spins = time.monotonic(), 0
+        t0, spins = REAL_MONOTONIC(), 0
         while not task.done():
             # a watchdog on the real clock (the event loop's clock may be warped by virtual reply delays)
             spins += 1
             await asyncio.sleep(0 if spins < 300 else 0.002)
-            if time.monotonic() - t0 > limit:
+            if REAL_MONOTONIC() - t0 > limit:
                 break
         try:
             if task.done():
@@ -89,6 +106,14 @@ class Rig:
 
     async def device(self) -> td.FakeDevice:
         dev = td.FakeDevice(self.next_ip())
+        seen = {"n": 0}
+
+        def lag(conn, idx, frame):
+            # every 23rd reply is slow: a second or two, ten seconds, a minute (healthy devices on a bad network)
+            seen["n"] += 1
+            return (1.2, 2.5, 6, 12, 25, 70)[(seen["n"] // 23) % 6] if seen["n"] % 23 == 7 else 0
+
+        dev.lag = lag
         await dev.start()
         self.devices.append(dev)
         return dev
